@@ -164,6 +164,19 @@ def _load(rel, max_hours=24):
     return wn
 
 
+
+def _absdiff_max(a, b):
+    """largest |a - b|; NaN on both sides is agreement, NaN on one side only is an infinite difference (np.nanmax alone would hide it)"""
+    import numpy as _np
+    a, b = _np.asarray(a, dtype=float), _np.asarray(b, dtype=float)
+    if a.size == 0:
+        return 0.0
+    if (_np.isnan(a) != _np.isnan(b)).any():
+        return float("inf")
+    d = _np.abs(a - b)
+    return 0.0 if _np.isnan(d).all() else float(_np.nanmax(d))
+
+
 def _worst(a, b, skip_pressure_of=()):
     """largest |a - b| relative to the full scale of a, per quantity; 'shape' if the tables are not comparable.
     skip_pressure_of: nodes whose pressure is compared separately (reservoirs, see wntr_vs_epanet)"""
@@ -178,7 +191,7 @@ def _worst(a, b, skip_pressure_of=()):
             keep = [c for c in x.columns if c not in skip_pressure_of]
             x, y = x[keep], y[keep]
         sc = max(1e-9, float(np.nanmax(np.abs(x.values.astype(float)))))
-        out[key] = float(np.nanmax(np.abs(x.values.astype(float) - y.values.astype(float)))) / sc
+        out[key] = _absdiff_max(x.values, y.values) / sc
     return out
 
 
@@ -261,7 +274,7 @@ def binfile_vs_toolkit(tier, seed, shard, nshards):
                     ref = np.array([api[t][key] for t in times], dtype=float) * fac[key]
                     got = tab.loc[times, names].values.astype(float)
                     sc = max(1e-9, float(np.nanmax(np.abs(ref))))
-                    worst[key] = float(np.nanmax(np.abs(ref - got))) / sc
+                    worst[key] = _absdiff_max(ref, got) / sc
                 # link status: the API reports 0 closed / 1 open; WNTR reports Closed 0 / Open 1 / Active 2 (active valves are open)
                 st_ref = np.array([api[t]["status"] for t in times], dtype=float)
                 st_got = res.link["status"].loc[times, links].values.astype(float)
@@ -406,7 +419,7 @@ def wntr_vs_epanet(tier, seed, shard, nshards):
                 # the "pressure" reported at reservoirs, compared on its own
                 if res_names:
                     pe, pw = e.node["pressure"][res_names].values.astype(float), w.node["pressure"][res_names].values.astype(float)
-                    if float(np.nanmax(np.abs(pe - pw))) > 1e-3:
+                    if _absdiff_max(pe, pw) > 1e-3:
                         from pyvc.runner import known_bounded
                         kf = known_bounded("C03", "C03.wntr_vs_epanet:reservoir_pressure_under_a_head_pattern")
                         moved = any(wn.get_node(r).head_pattern_name for r in res_names)
